@@ -184,7 +184,9 @@ func runCase(c dlCase) (fail *vt.Fail, soft string) {
 				return vt.Failf("line-ran-after-timeout", "a line after the timed-out command still ran%s", ctx), ""
 			}
 			lower := D - 2*g - 20*time.Millisecond
-			if e.kind == "ignore-quit" {
+			if e.kind == "ignore-quit" && !strings.Contains(sub.Log, "SIGQUIT: quit") {
+				// (if the log shows the runtime's SIGQUIT dump the helper had not yet installed its handler when
+				// the interrupt arrived - slow start on a busy machine - and it counts as interruptible)
 				lower = D - g - 20*time.Millisecond
 			}
 			if t < lower {
